@@ -66,7 +66,13 @@ Answer(r) ==
          IN
          [v |-> "ok", dev |-> "", after |-> a, exp |-> [i \in 1..Len(r.fmts) |-> GenOne(a, r.fmts[i])],
           rin |-> IF r.route.r = "import" THEN GenOne(r.key, r.route.fmt) ELSE GenOne(r.key, "none"),
-          classes |-> SetSeq(ValueClasses(a)), xcover |-> SetSeq(xc)]
+          classes |-> SetSeq(ValueClasses(a)), xcover |-> SetSeq(xc),
+          \* text-looking fields count where an extended key (fp, chain, index; the secret for xprv) resp. a private
+          \* form (the secret) of the object is exported
+          fcover |-> SetSeq((IF \E i \in 1..Len(r.fmts) : r.fmts[i] \in ExtFmts /\ CanExport(a, r.fmts[i])
+                             THEN FieldClasses(a, {"fp", "chain", "index"}) ELSE {})
+                            \cup (IF a.priv /\ (\E i \in 1..Len(r.fmts) : r.fmts[i] \in {"bytes", "xprv", "wif"} /\ CanExport(a, r.fmts[i]))
+                                  THEN FieldClasses(a, {"secret"}) ELSE {}))]
     [] r.k = "cover" ->      \* r.pairs: <<route, class>> pairs the run exercises; answer: what is still missing
          [v |-> "ok", dev |-> "", exp |-> SetSeq(RequiredCover \ {<<r.pairs[i][1], r.pairs[i][2]>> : i \in 1..Len(r.pairs)})]
     [] r.k = "str" ->
